@@ -18,6 +18,10 @@ META = {
              level_text="Generated multi-threaded programs run under ThreadSanitizer (races), under generated and exhaustively enumerated lock-order schedules (custom mutex), each checked for linearizability against a sequential model in lock order.",
              level_note="Trusted: ThreadSanitizer, the custom-mutex shim (documented TROMPELOEIL_CUSTOM_RECURSIVE_MUTEX), the sequential model in harness/threads/t_main.cpp. TSan sees races only on executions that happen; mode B/E explore lock-order interleavings only.",
              technique="property-based testing of concurrent programs: rapidcheck-generated programs and schedules, ThreadSanitizer, linearizability check against a sequential model"),
+ "C18": dict(engine="S (printing, rapidcheck + independent renderer)", design_ref="DESIGN.md 5/C18",
+             level_text="Generated values of 124 types under generated prior stream states are printed through trompeloeil::print, reports and traces and compared with an independent renderer; stream state restoration is checked; opaque sizes 1..40 x all states exhaustively.",
+             level_note="Trusted: the independent renderer in harness/printing/s_main.cpp, libstdc++ iostreams for the probe, sanitizers.",
+             technique="property-based testing: rapidcheck-generated values and stream states against an independent renderer, bounded exhaustive enumeration"),
  "C13": w("Exploration of watch/unwatch/destroy/copy/move/assign histories over three deathwatched objects with up to two requirements each.", "DESIGN.md 5/C13"),
  "C14": w("Destruction/move orders of every kind of object under ASan/UBSan/LSan with library sanity asserts, the model checking behaviour on survivors.", "DESIGN.md 5/C14"),
  "C15": w("Every report produced in the explored histories is checked for severity by origin, culprit location, listing and argument values.", "DESIGN.md 5/C15"),
@@ -28,7 +32,6 @@ NOT_APPLICABLE = {
  "C09": "check not built yet (engine P, generated parameter-passing programs) - in progress, see DESIGN.md 5/C09",
  "C10": "check not built yet (engine M, matcher trees) - in progress, see DESIGN.md 5/C10",
  "C11": "check not built yet (engine R, range matchers) - in progress, see DESIGN.md 5/C11",
- "C18": "check not built yet (engine S, printing) - in progress, see DESIGN.md 5/C18",
  "C19": "check not built yet (engine K, generated compile-time programs) - in progress, see DESIGN.md 5/C19",
  "C20": "check not built yet (engine Q, coroutines) - in progress, see DESIGN.md 5/C20",
 }
@@ -37,3 +40,4 @@ ENGINES = [
       kind_free_text="rapidcheck stateful generation of API histories, interpreted against the real library and a reference model; ASan+UBSan"),
 ]
 ENGINES.append(dict(name="T", path="harness/threads", serves_properties=["C12"], kind_free_text="rapidcheck-generated thread programs; TSan build (free running) and ASan build (owned / enumerated schedules) through the custom recursive mutex"))
+ENGINES.append(dict(name="S", path="harness/printing", serves_properties=["C18"], kind_free_text="rapidcheck over a closed family of 124 value types x prior stream states, independent renderer"))
